@@ -19,7 +19,6 @@
                                 gives the same per-line result, so the sweep over lower-case spellings covers upper and mixed case.
 -/
 import AL.Properties.Sweep.C01
-import AL.Properties.Kernel.C01
 import AL.Impl.Parser
 import AL.Lemmas.FilterLemmas
 import AL.Impl.Encoder
@@ -47,51 +46,6 @@ set_option maxRecDepth 100000 in
 theorem no_operand_lines :
     ([mn! "clc", mn! "cpuid", mn! "lfence", mn! "mfence", mn! "sfence", mn! "rdpmc", mn! "rdtsc", mn! "rdtscp", mn! "ret", mn! "xend",
       mn! "nop"].all fun t => lineDecodes 14 t t) = true := by decide +kernel
-
-/-! ### every register form, every register tuple, every option byte — checked by the kernel -/
-
-open AL.Properties.Kernel in
-/-- **C01 in full, kernel-checked** (no native_decide; restated from AL.Properties.Kernel.c01_every_instance): for every integer entry
-    `en` of the reference opcode table whose operands are registers, every spelling `w` of its mnemonic, every instance `d` (operand
-    size × encodable register tuple) and EVERY option byte, the written line exists, and the model of the library either turns it into
-    bytes that the reference decoder reads back as exactly one instruction covering all of them, the written one — or rejects it, and
-    then the form is outside the frozen list of supported forms.  It is never skipped. -/
-theorem every_register_form (en : Enc) (hen : en ∈ entriesC01) (w : Mn) (hw : w ∈ spellings en.mn)
-    (d : Dec) (hd : d ∈ enumEnc fillRegs en) (opt : Nat) :
-    ∃ text, lineL w d.ops = some text ∧
-      match (assembleLine opt text).1 with
-      | .ok (.code bs) => ∃ g, decodeAll 4 bs = some [g] ∧ g.len = bs.length ∧ sameInstr (itemOf w d) g = true
-      | .ok .skip => False
-      | .error _ => supportedForm (itemOf w d) = false := by
-  have h := c01_every_instance en hen w hw d hd opt
-  unfold holdsAt at h
-  cases hl : lineL w d.ops with
-  | none => rw [hl] at h; exact absurd h (by simp)
-  | some text =>
-    rw [hl] at h
-    refine ⟨text, rfl, ?_⟩
-    dsimp only at h
-    cases hr : (assembleLine opt text).1 with
-    | error e => rw [hr] at h; simpa using h
-    | ok lo =>
-      rw [hr] at h
-      cases lo with
-      | skip => simp at h
-      | code bs =>
-        dsimp only at h ⊢
-        unfold decodesTo at h
-        cases hd4 : decodeAll 4 bs with
-        | none => rw [hd4] at h; simp at h
-        | some gs =>
-          rw [hd4] at h
-          match gs, h with
-          | [g], h =>
-            simp only [Bool.and_eq_true, beq_iff_eq] at h
-            exact ⟨g, rfl, h.1, h.2⟩
-
-open AL.Properties.Kernel in
-/-- non-vacuity: `xchg r13w, ax` under an arbitrary option byte is an instance (entry, spelling, register pair) of the theorem -/
-example : holdsAt 9 (mn! "xchg") { mn := mn! "xchg", ops := [.reg ⟨.gpr16, 13⟩, .reg ⟨.gpr16, 0⟩], len := 0 } = true := by decide +kernel
 
 /-- **letter case**: two texts that agree after folding A–Z to a–z give the same per-line result (bytes or rejection) -/
 theorem letter_case_irrelevant (opt : Nat) (t1 t2 : Str) (h : t1.map tolower = t2.map tolower) :
